@@ -7,6 +7,7 @@ mod dbg;
 mod gating;
 mod gen;
 mod gram;
+mod inc;
 mod lex;
 mod lit;
 mod parse;
@@ -36,6 +37,7 @@ fn main() {
         "gram-cases" => gram::cases(rest),
         "seq-cases" => gram::seq_cases(rest),
         "anz-cases" => anz::cases(rest),
+        "inc-cases" => inc::cases(rest),
         "lex-cases" => lex::cases(rest),
         "lex-exhaustive" => lex::exhaustive(rest),
         "lex-record" => lex::record(rest),
